@@ -11,6 +11,11 @@ Lemmas for C10 (panic handling in the serve model).  Everything lives in `Restfu
 * `runRecover_status`: on an unlocked, unclosed writer the recover handler decides the status.
 * `Plan`, `planD`, `dispatch_eq`: `dispatch` as "panic before the chain, or one chain with or without
   a compressor"; `planD_raw`: switching coding and recovery off does not change the chain.
+* `plainFilteredBody_eq`, `plainFilteredBody_snd`, `plainFilteredBody_status`: the chain
+  `HandleWithFilter` builds, with the deferred recover it has since a0e838d (F18 repaired): the same
+  three facts as for `dispatch`, when there are container filters.
+* `covered`: the entry points recovery covers — `dispatch` (routed), and `HandleWithFilter` with at
+  least one container filter; the same Boolean as `covered` inside `Spec.c10Holds` (`c10Holds_eq`).
 * `raised`, `serveCore`, `serve_eq`, `serve_escaped`, `serve_recoverCalls`, `raw_escaped`,
   `serve_closed`, `serveCore_status`: the facts about `serve` the C10 theorems are assembled from.
 * `chainLog_panic`, `chainOf_routed`, `raised_of_panicFromFilter`, `panicFromFilter_plain`: bridge to
@@ -628,17 +633,83 @@ theorem plainBody_snd (cfg : Cfg) (s : St) : (plainBody cfg s).2 = (firstPanic c
   show ((runStage (.plain 0) false cfg.plainScript {} s).2.2, 0) = _
   rw [runStage_panic]
 
-theorem plainFilteredBody_snd (cfg : Cfg) (s : St) :
-    (plainFilteredBody cfg s).2 = (chainPanic (label .cfilter cfg.cfilters) cfg.plainScript, 0) := by
+/-- `HandleWithFilter` with container filters, the chain's results named by projections and its
+    panic by `chainPanic` -/
+theorem plainFilteredBody_eq (cfg : Cfg) (s : St) (hne : cfg.cfilters.isEmpty = false) :
+    plainFilteredBody cfg s =
+      (match chainPanic (label .cfilter cfg.cfilters) cfg.plainScript with
+       | none => ((runChain (label .cfilter cfg.cfilters) ⟨.plain 0, cfg.plainScript⟩ {} s).2.1, none, 0)
+       | some v =>
+         if cfg.recover then
+           (runRecover cfg (runChain (label .cfilter cfg.cfilters) ⟨.plain 0, cfg.plainScript⟩ {} s).2.1, none, 1)
+         else ((runChain (label .cfilter cfg.cfilters) ⟨.plain 0, cfg.plainScript⟩ {} s).2.1, some v, 0)) := by
   unfold plainFilteredBody
-  split
-  · rename_i h
-    rw [plainBody_snd]
-    simp only [List.isEmpty_iff] at h
+  simp only [hne, Bool.false_eq_true, if_false]
+  have hp := runChain_panic (label .cfilter cfg.cfilters) ⟨.plain 0, cfg.plainScript⟩ {} s
+  generalize runChain (label .cfilter cfg.cfilters) ⟨.plain 0, cfg.plainScript⟩ {} s = Q at hp ⊢
+  obtain ⟨cx1, s1, p⟩ := Q
+  simp only at hp
+  subst hp
+  rfl
+
+/-- ingredient (b) for `HandleWithFilter` (container.go:393): with container filters and recovery on
+    nothing leaves the chain and the recover handler is called once iff there was a panic; without
+    container filters (the handler is called directly) or with recovery off the panic is handed on -/
+theorem plainFilteredBody_snd (cfg : Cfg) (s : St) :
+    (plainFilteredBody cfg s).2 =
+      if cfg.recover && !cfg.cfilters.isEmpty then
+        (none, if (chainPanic (label .cfilter cfg.cfilters) cfg.plainScript).isSome then 1 else 0)
+      else (chainPanic (label .cfilter cfg.cfilters) cfg.plainScript, 0) := by
+  cases hne : cfg.cfilters.isEmpty with
+  | true =>
+    have h : cfg.cfilters = [] := List.isEmpty_iff.mp hne
+    unfold plainFilteredBody
+    simp only [hne, if_true, plainBody_snd, Bool.not_true, Bool.and_false, Bool.false_eq_true, if_false]
     rw [h]
     rfl
-  · show ((runChain (label .cfilter cfg.cfilters) ⟨.plain 0, cfg.plainScript⟩ {} s).2.2, 0) = _
-    rw [runChain_panic]
+  | false =>
+    rw [plainFilteredBody_eq cfg s hne]
+    cases chainPanic (label .cfilter cfg.cfilters) cfg.plainScript <;> cases cfg.recover <;> rfl
+
+/-- ingredient (c) for `HandleWithFilter`: if the chain run without coding and recovery ends in a
+    panic with the status still open, the real run (recovery on) ends with the recover handler's
+    status — through a compressing writer as well -/
+theorem plainFilteredBody_status (cfg : Cfg) (s s' : St)
+    (hr : cfg.recover = true) (hne : cfg.cfilters.isEmpty = false) (he : Spec.recoverPanicsEarly cfg = false)
+    (h0 : Fresh s) (h0' : s'.rc.comp = none)
+    (hp : (chainPanic (label .cfilter cfg.cfilters) cfg.plainScript).isSome = true)
+    (hraw : (plainFilteredBody (rawCfg cfg) s').1.rc.status = none) :
+    (plainFilteredBody cfg s).1.rc.status.getD 200 = Spec.recoverStatus cfg := by
+  obtain ⟨v, hv⟩ := Option.isSome_iff_exists.mp hp
+  have hne' : (rawCfg cfg).cfilters.isEmpty = false := hne
+  have hcf : (rawCfg cfg).cfilters = cfg.cfilters := rfl
+  have hps : (rawCfg cfg).plainScript = cfg.plainScript := rfl
+  have hrr : (rawCfg cfg).recover = false := rfl
+  rw [plainFilteredBody_eq _ _ hne', hcf, hps, hv, hrr] at hraw
+  simp only [Bool.false_eq_true, if_false] at hraw
+  rw [plainFilteredBody_eq _ _ hne, hv]
+  simp only [hr, if_true]
+  have hsim : Sim s.rc s'.rc := ⟨h0.2, h0', fun _ => h0.1⟩
+  have hsim' := runChain_rel sim_stable (label .cfilter cfg.cfilters) ⟨.plain 0, cfg.plainScript⟩ {} {} _ _ hsim
+  exact runRecover_status cfg _ (hsim'.2.2 hraw) hsim'.1 he
+
+/-- the same around the closure `Handle` registers -/
+theorem handleFiltered_status (cfg : Cfg) (sr : SReq) (s0 s0' : St)
+    (hr : cfg.recover = true) (hne : cfg.cfilters.isEmpty = false) (he : Spec.recoverPanicsEarly cfg = false)
+    (h0 : Fresh s0) (h0' : s0'.rc.comp = none)
+    (hp : (chainPanic (label .cfilter cfg.cfilters) cfg.plainScript).isSome = true)
+    (hraw : (handleWrapper (rawCfg cfg) (rawReq sr) s0' (plainFilteredBody (rawCfg cfg))).1.rc.status = none) :
+    (handleWrapper cfg sr s0 (plainFilteredBody cfg)).1.rc.status.getD 200 = Spec.recoverStatus cfg := by
+  have hraw' : (plainFilteredBody (rawCfg cfg) s0').1.rc.status = none := by
+    unfold handleWrapper at hraw
+    simp only [h0', Option.isSome_none, Bool.false_eq_true, if_false] at hraw
+    exact closeComp_status_none hraw
+  unfold handleWrapper
+  split
+  · exact plainFilteredBody_status cfg s0 s0' hr hne he h0 h0' hp hraw'
+  · show (closeComp (plainFilteredBody cfg (maybeInstall cfg.encoding s0 sr.acceptEncoding)).1).rc.status.getD 200 = _
+    rw [closeComp_status_getD]
+    exact plainFilteredBody_status cfg _ s0' hr hne he (fresh_maybeInstall _ _ h0) h0' hp hraw'
 
 /-! ### `serve` -/
 
@@ -646,6 +717,30 @@ theorem plainFilteredBody_snd (cfg : Cfg) (s : St) :
 def routed : Entry → Bool
   | .dispatch | .serveDispatch => true
   | _ => false
+
+/-- the entry points recovery covers (with recovery on): the chains the framework builds — routed
+    requests, and `HandleWithFilter` when there are container filters (container.go:393; without
+    filters the handler is called directly, like one registered with `Handle`) -/
+def covered (cfg : Cfg) (e : Entry) : Bool :=
+  routed e || ((e == .muxHandleF || e == .serveHandleF) && !cfg.cfilters.isEmpty)
+
+@[simp] theorem covered_dispatch (cfg : Cfg) : covered cfg .dispatch = true := rfl
+@[simp] theorem covered_serveDispatch (cfg : Cfg) : covered cfg .serveDispatch = true := rfl
+@[simp] theorem covered_muxHandle (cfg : Cfg) : covered cfg .muxHandle = false := rfl
+@[simp] theorem covered_serveHandle (cfg : Cfg) : covered cfg .serveHandle = false := rfl
+@[simp] theorem covered_muxHandleF (cfg : Cfg) : covered cfg .muxHandleF = !cfg.cfilters.isEmpty := by
+  simp [covered, routed]
+@[simp] theorem covered_serveHandleF (cfg : Cfg) : covered cfg .serveHandleF = !cfg.cfilters.isEmpty := by
+  simp [covered, routed]
+
+theorem covered_of_routed {cfg : Cfg} {e : Entry} (h : routed e = true) : covered cfg e = true := by
+  simp [covered, h]
+
+/-- `covered`, spelled out -/
+theorem covered_iff (cfg : Cfg) (e : Entry) :
+    covered cfg e = true ↔
+      (e = .dispatch ∨ e = .serveDispatch ∨ ((e = .muxHandleF ∨ e = .serveHandleF) ∧ cfg.cfilters ≠ [])) := by
+  cases e <;> simp
 
 /-- the panic a request raises: a function of routing, the filters on its chain and the scripts;
     independent of the writer, of content coding and of the recovery switch -/
@@ -683,31 +778,31 @@ theorem dispatch_snd (E : ReEnv) (cfg : Cfg) (sr : SReq) (s : St) :
 
 theorem serveCore_snd (E : ReEnv) (cfg : Cfg) (e : Entry) (sr : SReq) :
     (serveCore E cfg e sr).2 =
-      if cfg.recover && routed e then (none, if (raised E cfg e sr).isSome then 1 else 0)
+      if cfg.recover && covered cfg e then (none, if (raised E cfg e sr).isSome then 1 else 0)
       else (raised E cfg e sr, 0) := by
   cases e with
-  | dispatch => simp only [serveCore, dispatch_snd, routed, raised, Bool.and_true]; rfl
+  | dispatch => simp only [serveCore, dispatch_snd, covered_dispatch, raised, Bool.and_true]; rfl
   | serveDispatch =>
     obtain ⟨s1, h⟩ := serveWrapper_snd cfg sr (initial sr) (dispatch E cfg sr)
-    simp only [serveCore, h, dispatch_snd, routed, raised, Bool.and_true]; rfl
+    simp only [serveCore, h, dispatch_snd, covered_serveDispatch, raised, Bool.and_true]; rfl
   | muxHandle =>
     obtain ⟨s1, h⟩ := handleWrapper_snd cfg sr (initial sr) (plainBody cfg)
-    simp [serveCore, h, plainBody_snd, routed, raised]
+    simp [serveCore, h, plainBody_snd, raised]
   | serveHandle =>
     obtain ⟨s1, h⟩ := serveWrapper_snd cfg sr (initial sr) (fun s => handleWrapper cfg sr s (plainBody cfg))
     obtain ⟨s2, h2⟩ := handleWrapper_snd cfg sr s1 (plainBody cfg)
-    simp [serveCore, h, h2, plainBody_snd, routed, raised]
+    simp [serveCore, h, h2, plainBody_snd, raised]
   | muxHandleF =>
     obtain ⟨s1, h⟩ := handleWrapper_snd cfg sr (initial sr) (plainFilteredBody cfg)
-    simp [serveCore, h, plainFilteredBody_snd, routed, raised]
+    simp only [serveCore, h, plainFilteredBody_snd, covered_muxHandleF, raised]; rfl
   | serveHandleF =>
     obtain ⟨s1, h⟩ := serveWrapper_snd cfg sr (initial sr) (fun s => handleWrapper cfg sr s (plainFilteredBody cfg))
     obtain ⟨s2, h2⟩ := handleWrapper_snd cfg sr s1 (plainFilteredBody cfg)
-    simp [serveCore, h, h2, plainFilteredBody_snd, routed, raised]
+    simp only [serveCore, h, h2, plainFilteredBody_snd, covered_serveHandleF, raised]; rfl
 
 /-- the panic that leaves the entry point -/
 theorem serve_escaped (E : ReEnv) (cfg : Cfg) (e : Entry) (w : World) (sr : SReq) :
-    (serve E cfg e w sr).escaped = if cfg.recover && routed e then none else raised E cfg e sr := by
+    (serve E cfg e w sr).escaped = if cfg.recover && covered cfg e then none else raised E cfg e sr := by
   rw [serve_eq]
   simp only [serveCore_snd]
   split <;> rfl
@@ -715,7 +810,7 @@ theorem serve_escaped (E : ReEnv) (cfg : Cfg) (e : Entry) (w : World) (sr : SReq
 /-- the number of recover-handler calls -/
 theorem serve_recoverCalls (E : ReEnv) (cfg : Cfg) (e : Entry) (w : World) (sr : SReq) :
     (serve E cfg e w sr).recoverCalls =
-      if cfg.recover && routed e then (if (raised E cfg e sr).isSome then 1 else 0) else 0 := by
+      if cfg.recover && covered cfg e then (if (raised E cfg e sr).isSome then 1 else 0) else 0 := by
   rw [serve_eq]
   simp only [serveCore_snd]
   split <;> rfl
@@ -762,9 +857,9 @@ theorem dispatch_status (E : ReEnv) (cfg : Cfg) (sr : SReq) (s0 : St)
   rw [dispatch_eq]
   exact runPlan_status cfg (rawCfg cfg) sr (rawReq sr) s0 _ _ hr rfl he h0 rfl hp hraw
 
-/-- ingredient (c) on `serve` -/
+/-- ingredient (c) on `serve`, every covered entry point -/
 theorem serveCore_status (E : ReEnv) (cfg : Cfg) (e : Entry) (sr : SReq)
-    (hr : cfg.recover = true) (hro : routed e = true) (he : Spec.recoverPanicsEarly cfg = false)
+    (hr : cfg.recover = true) (hco : covered cfg e = true) (he : Spec.recoverPanicsEarly cfg = false)
     (hp : (raised E cfg e sr).isSome = true)
     (hraw : (serveCore E (rawCfg cfg) e (rawReq sr)).1.rc.status = none) :
     (serveCore E cfg e sr).1.rc.status.getD 200 = Spec.recoverStatus cfg := by
@@ -783,10 +878,25 @@ theorem serveCore_status (E : ReEnv) (cfg : Cfg) (e : Entry) (sr : SReq)
       rcases hs1 with rfl | ⟨c, rfl⟩
       · exact fresh_initial sr
       · exact fresh_install c (fresh_initial sr)
-  | muxHandle => cases hro
-  | serveHandle => cases hro
-  | muxHandleF => cases hro
-  | serveHandleF => cases hro
+  | muxHandle => simp at hco
+  | serveHandle => simp at hco
+  | muxHandleF =>
+    have hne : cfg.cfilters.isEmpty = false := by simpa using hco
+    exact handleFiltered_status cfg sr _ _ hr hne he (fresh_initial sr) rfl hp hraw
+  | serveHandleF =>
+    have hne : cfg.cfilters.isEmpty = false := by simpa using hco
+    simp only [serveCore] at hraw
+    rw [serveWrapper_off _ _ _ _ rfl] at hraw
+    simp only [serveCore]
+    rcases serveWrapper_cases cfg sr (initial sr) (fun s => handleWrapper cfg sr s (plainFilteredBody cfg)) with h | ⟨s1, hs1, h⟩
+    · rw [h]
+      exact handleFiltered_status cfg sr _ _ hr hne he (fresh_initial sr) rfl hp hraw
+    · rw [h]
+      simp only [closeComp_status_getD]
+      refine handleFiltered_status cfg sr _ _ hr hne he ?_ rfl hp hraw
+      rcases hs1 with rfl | ⟨c, rfl⟩
+      · exact fresh_initial sr
+      · exact fresh_install c (fresh_initial sr)
 
 /-! ### bridge to the specification's `chainLog` / `panicFromFilter` -/
 
@@ -946,7 +1056,7 @@ theorem serve_balanced (E : ReEnv) (cfg : Cfg) (e : Entry) (w : World) (sr : SRe
 /-- `c10Holds` with the comparison run and the entry-point class named -/
 theorem c10Holds_eq (E : ReEnv) (cfg : Cfg) (e : Entry) (sr : SReq) (o : Spec.Obs) :
     Spec.c10Holds E cfg e sr o =
-      (if cfg.recover && (routed e || Spec.panicFromFilter E cfg e sr) then
+      (if cfg.recover && covered cfg e then
         o.escaped.isNone && (o.acq == o.rel && o.dbl == 0 && o.complete) &&
           (cfg.recoverScript.isNone ||
             o.recov == (if (serve E (rawCfg cfg) e {} (rawReq sr)).escaped.isSome then 1 else 0)) &&
